@@ -616,9 +616,9 @@ theorem inline_image_rt (kv : List (Bytes × Obj)) (data : Bytes) (h : ImageOk k
     have hdl := dataI_length (sortKV kv)
     have hsl := length_sortKV kv
     have hdict := readDict_entries (sortKV kv) [] eb (10 :: (data ++ trailer ++ rest))
-      ((10 :: (eb ++ (bytesID ++ (data ++ trailer ++ rest)))).length + 2)
+      (2 * (10 :: (eb ++ (bytesID ++ (data ++ trailer ++ rest)))).length + 2)
       hent heb (by have := h.count; simp; omega) (by simp; omega)
-    have hdict' : readDictBody ((10 :: (eb ++ (bytesID ++ (data ++ trailer ++ rest)))).length + 2) kwID 0 []
+    have hdict' : readDictBody (2 * (10 :: (eb ++ (bytesID ++ (data ++ trailer ++ rest)))).length + 2) kwID 0 []
         (10 :: (eb ++ (bytesID ++ (data ++ trailer ++ rest)))) = .ok (imgDict kv) (10 :: (data ++ trailer ++ rest)) := by
       rw [readDictBody_space 10 _ cSpace_10]
       simpa [bytesID, imgDict] using hdict
@@ -638,7 +638,7 @@ theorem inline_image_rt (kv : List (Bytes × Obj)) (data : Bytes) (h : ImageOk k
       have c5 : ¬ (iiInt (imgDict kv) nmW nmWidth * iiInt (imgDict kv) nmH nmHeight > ↑Gen.content_maxInlineImagePixels) := by omega
       have c6 : ¬ (iiInt (imgDict kv) nmL nmLength > 0) := by omega
       simp only [c1, c2, c3, c4, c5, c6, decide_false, Bool.or_self, Bool.false_eq_true, if_false, cSpace_10, if_true,
-        h.notASCII, Bool.false_and, hloop]
+        h.notASCII, Bool.false_and, hloop, afterID, imageData]
       simp [iiFinish, cReg_10]
     have e0 : bytesBI ++ (eb ++ (bytesID ++ (data ++ [10, 69, 73]))) ++ 10 :: rest =
         66 :: 73 :: 10 :: (eb ++ (bytesID ++ (data ++ trailer ++ rest))) := by
